@@ -155,6 +155,15 @@ def gen_grid(rng, dyadic):
     else:
         # every dyadic offset must be exactly representable
         grid = [(i, o) for i, o in grid if float(o) == o]
+    if len(grid) >= 2 and rng.random() < 0.25:
+        # the end of the track placed within a sample of a whole number of beats after the last marker (the last marker's
+        # offset is fractional in the general class, so floor and ceil bracket the boundary by less than one sample)
+        (i0, o0), (i1, o1) = grid[-2], grid[-1]
+        bl = (o1 - o0) / (i1 - i0)
+        x = o1 + bl * rng.choice([0, 1, 1, 2, 3, 7, 64])
+        c = int(x // 1) + rng.choice([-1, 0, 0, 1, 1, 2])
+        if 1 <= c < 2 ** 40:
+            count = c
     return grid, count
 
 
